@@ -3,6 +3,8 @@
 use std::{net::SocketAddrV4, num::NonZeroUsize};
 
 use crate::common::Id;
+#[cfg(mainline_verif)]
+use crate::verif::getrandom;
 
 use lru::LruCache;
 
@@ -15,6 +17,26 @@ const CHANCE_SCALE: f32 = 2.0 * (1u32 << 31) as f32;
 pub struct PeersStore {
     info_hashes: LruCache<Id, LruCache<Id, SocketAddrV4>>,
     max_peers: NonZeroUsize,
+}
+
+#[cfg(mainline_verif)]
+#[allow(clippy::type_complexity)]
+impl PeersStore {
+    pub(crate) fn verif_snapshot(&self) -> Vec<([u8; 20], Vec<([u8; 20], SocketAddrV4)>)> {
+        self.info_hashes
+            .iter()
+            .map(|(ih, lru)| {
+                (
+                    *ih.as_bytes(),
+                    lru.iter().map(|(id, a)| (*id.as_bytes(), *a)).collect(),
+                )
+            })
+            .collect()
+    }
+
+    pub(crate) fn verif_caps(&self) -> (usize, usize) {
+        (self.info_hashes.cap().get(), self.max_peers.get())
+    }
 }
 
 impl PeersStore {
